@@ -118,6 +118,11 @@ class Negotiated:
         )
 
         self.local_as = self.sent_open.asn
+        # RFC 6793 4.1: the My Autonomous System field carries AS_TRANS when our AS number does
+        # not fit two octets; the real number is the one in the ASN4 capability we sent
+        sent_asn4 = sent_capa.get(Capability.CODE.FOUR_BYTES_ASN, None)
+        if isinstance(sent_asn4, ASN):
+            self.local_as = sent_asn4
         self.peer_as = self.received_open.asn
         if self.received_open.asn == AS_TRANS and self.asn4:
             asn4_capa = recv_capa.get(Capability.CODE.FOUR_BYTES_ASN, None)
@@ -239,7 +244,9 @@ class Negotiated:
         if self.received_open.router_id == RouterID('0.0.0.0'):
             return (2, 3, '0.0.0.0 is an invalid router_id')
 
-        if self.received_open.asn == neighbor.session.local_as:
+        # RFC 6286 2.2: "internal peer" is decided on the peer's AS number, which is not the
+        # two octet field when that holds AS_TRANS
+        if self.peer_as == neighbor.session.local_as:
             # router-id must be unique within an ASN
             if self.received_open.router_id == neighbor.session.router_id:
                 return (
